@@ -101,6 +101,69 @@ func (s *Sess) ForeignEditStandalone(path, content string) {
 	sl[0].Text, sl[0].Raw = content, content
 }
 
+// ForeignEditEntry changes one letter in the stored body of one entry of a multi-entry
+// file behind the library's back - the file keeps its length, its inode and (the harness
+// backdates every mtime before each call) its modification time - and mirrors it in the
+// model. It reports false when no entry of the file has a letter to change.
+func (s *Sess) ForeignEditEntry(path string, pick func(n int) int) bool {
+	sl := s.Store.Files[path]
+	var cands []int
+	for i, e := range sl {
+		if e.ID != "" && strings.IndexFunc(e.Raw, func(r rune) bool { return r >= 'a' && r <= 'z' }) >= 0 {
+			cands = append(cands, i)
+		}
+	}
+	if len(cands) == 0 {
+		return false
+	}
+	render := func() []byte {
+		es := make([]vkit.SnapEntry, len(sl))
+		for k, e := range sl {
+			es[k] = vkit.SnapEntry{ID: e.ID, Body: e.Raw}
+		}
+		return []byte(vkit.RenderSnapFile(es))
+	}
+	// only files whose bytes are exactly the plain rendering of their entries are edited (a
+	// file a failed write left in another layout is left alone)
+	if b, err := os.ReadFile(path); err != nil || string(b) != string(render()) {
+		return false
+	}
+	i := cands[pick(len(cands))]
+	raw := []byte(sl[i].Raw)
+	for k, c := range raw {
+		if c >= 'a' && c <= 'z' {
+			if c == 'q' {
+				raw[k] = 'j'
+			} else {
+				raw[k] = 'q'
+			}
+			break
+		}
+	}
+	sl[i].Raw = string(raw)
+	sl[i].Text = vkit.Unescape(sl[i].Raw)
+	nb := render()
+	f, err := os.OpenFile(path, os.O_WRONLY, 0)
+	if err != nil {
+		panic(err)
+	}
+	f.WriteAt(nb, 0) // in place: same inode, same size
+	f.Close()
+	return true
+}
+
+// MultiFiles lists the multi-entry files the model currently holds, sorted.
+func (s *Sess) MultiFiles() []string {
+	var out []string
+	for p, sl := range s.Store.Files {
+		if len(sl) > 0 && sl[0].ID != "" {
+			out = append(out, p)
+		}
+	}
+	sort.Strings(out)
+	return out
+}
+
 // StandaloneFiles lists the standalone files the model currently holds, sorted.
 func (s *Sess) StandaloneFiles() []string {
 	var out []string
